@@ -178,6 +178,11 @@ def run(tier, seed):
         ev = []
         okres = True
         for v, (gm, gv, gs, gg, gwin, rs) in zip(vals, obs):
+            if any(not isinstance(v_, (int, float)) for v_ in (gm, gv, gs, gg)):
+                ctx.violation("trace.sw.integral_stats", "k=%d" % k, "mean/var/std/get = %r are not all numbers" % ((gm, gv, gs, gg),),
+                              {"k": k, "values": vals[:len(ev) + 1]})
+                okres = False
+                break
             cnt = len(gwin) if gwin is not None else min(len(ev) + 1, k)
             s = gm * cnt
             vn = gv * cnt * cnt
